@@ -127,14 +127,50 @@ Definition body_checks (model_tree obs_tree : xtree) (obs_table : option (list r
 Definition table_spec (expected : list row) (obs_table : option (list row)) : bool :=
   match obs_table with Some t => table_same_b t expected | None => false end.
 
+(** The ContentLength field of a client's object is not among the things the property
+    says must reach the client unchanged: the specification accepts 0 (the clients do not
+    ask for getcontentlength) or the backend's length.  [exp] carries the backend's. *)
+Definition obj_view_spec_eqb (exp obs : obj_view) : bool :=
+  String.eqb (v_path exp) (v_path obs) && String.eqb (v_etag exp) (v_etag obs) && (v_sec exp =? v_sec obs)
+  && ((v_len obs =? 0) || (v_len obs =? v_len exp)) && String.eqb (v_data exp) (v_data obs).
+
+(** The table of a server body against what the RFCs prescribe, independent of WHICH names
+    the client chose to ask for beyond the ones it must read ([known]): the rows for the
+    known names are exactly the expected ones (resource by resource, in order), and every
+    other row is the RFC's answer for its name on a resource with that href.
+    [answers]: per resource, the href written for it and its answer function. *)
+Definition row_known (known : list xname) (r : row) : bool :=
+  match r with
+  | PropRow _ p _ => existsb (fun n => has_name n p) known
+  | StatusRow _ _ => true
+  end.
+Definition extra_row_ok (answers : list (string * (xname -> xtree * Z))) (r : row) : bool :=
+  match r with
+  | PropRow h p c =>
+    match root_name p with
+    | Some n => existsb (fun a => String.eqb (fst a) h && pair_eqb (snd a n) (p, c)) answers
+    | None => false
+    end
+  | StatusRow _ _ => true
+  end.
+Definition table_spec_rel (known : list xname) (answers : list (string * (xname -> xtree * Z)))
+           (expected : list row) (obs_table : option (list row)) : bool :=
+  match obs_table with
+  | Some t => table_same_b (filter (row_known known) t) expected
+              && forallb (fun r => row_known known r || extra_row_ok answers r) t
+  | None => false
+  end.
+
 (** ** Query *)
 Definition check_query (fl : flavor) (principal : string) (os : list obj)
            (obs_tree : xtree) (obs_table : option (list row)) (obs_client : cres (list obj_view)) : verdict :=
   let mt := server_query cd fl principal (report_req fl) os in
   {| agree := body_checks mt obs_tree obs_table
               && cres_eqb (list_eqb obj_view_eqb) (e2e_query cd fl principal os) obs_client;
-     spec := table_spec (flat_map (fun o => expected_rows cd (o_path o) (spec_object_answer cd fl principal o) (report_req fl)) os) obs_table
-             && cres_eqb (list_eqb obj_view_eqb) (COk (map report_view os)) obs_client;
+     spec := table_spec_rel (report_req fl)
+               (map (fun o => (href_enc cd (o_path o), spec_object_answer cd fl principal o)) os)
+               (flat_map (fun o => expected_rows cd (o_path o) (spec_object_answer cd fl principal o) (report_req fl)) os) obs_table
+             && cres_eqb (list_eqb obj_view_spec_eqb) (COk (map full_view os)) obs_client;
      applies := forallb (obj_codec_ok fl) os; finding := false |}.
 
 (** ** Multiget *)
@@ -152,6 +188,15 @@ Fixpoint spec_multiget_client (backend : string -> outcome) (hrefs : list string
               | Found o => bindc (spec_multiget_client backend r) (fun l => COk (report_view o :: l))
               end
   end.
+(** the same with the backend's lengths, for the lenient comparison of the specification *)
+Fixpoint spec_multiget_full (backend : string -> outcome) (hrefs : list string) : cres (list obj_view) :=
+  match hrefs with
+  | [] => COk []
+  | h :: r => match backend h with
+              | Failed c _ _ => CHttp (fail_code c)
+              | Found o => bindc (spec_multiget_full backend r) (fun l => COk (full_view o :: l))
+              end
+  end.
 Definition check_multiget (fl : flavor) (principal : string) (backend : string -> outcome) (hrefs : list string)
            (obs_tree : xtree) (obs_table : option (list row)) (obs_client : cres (list obj_view))
            (obs_calls : list string) : verdict :=
@@ -160,11 +205,16 @@ Definition check_multiget (fl : flavor) (principal : string) (backend : string -
   {| agree := body_checks mt obs_tree obs_table
               && cres_eqb (list_eqb obj_view_eqb) (e2e_multiget cd fl principal backend hrefs) obs_client
               && list_eqb String.eqb seen obs_calls;
-     spec := table_spec (flat_map (fun h => match backend h with
-                                            | Found o => expected_rows cd (o_path o) (spec_object_answer cd fl principal o) (report_req fl)
-                                            | Failed c _ _ => [StatusRow (href_enc cd h) (fail_code c)]
-                                            end) hrefs) obs_table
-             && cres_eqb (list_eqb obj_view_eqb) (spec_multiget_client backend hrefs) obs_client
+     spec := table_spec_rel (report_req fl)
+               (flat_map (fun h => match backend h with
+                                   | Found o => [(href_enc cd (o_path o), spec_object_answer cd fl principal o)]
+                                   | Failed _ _ _ => []
+                                   end) hrefs)
+               (flat_map (fun h => match backend h with
+                                   | Found o => expected_rows cd (o_path o) (spec_object_answer cd fl principal o) (report_req fl)
+                                   | Failed c _ _ => [StatusRow (href_enc cd h) (fail_code c)]
+                                   end) hrefs) obs_table
+             && cres_eqb (list_eqb obj_view_spec_eqb) (spec_multiget_full backend hrefs) obs_client
              && list_eqb String.eqb hrefs obs_calls;
      applies := forallb (fun h => outcome_ok fl h (backend h)) hrefs; finding := false |}.
 
@@ -175,11 +225,12 @@ Definition check_find (fl : flavor) (principal home : string) (cs : list coll)
   {| agree := body_checks mt obs_tree obs_table
               && cres_eqb (list_eqb coll_view_eqb) (e2e_find cd fl principal home cs) obs_client;
      spec := cres_eqb (list_eqb coll_view_eqb) (COk (map (coll_spec_view fl) cs)) obs_client
-             && match obs_table with
-                | Some t => table_same_b (skipn (List.length (find_req fl)) t)
-                              (flat_map (fun c => expected_rows cd (c_path c) (spec_collection_answer cd fl principal c) (find_req fl)) cs)
-                | None => false
-                end;
+             && table_spec_rel (find_req fl)
+                  (map (fun c => (href_enc cd (c_path c), spec_collection_answer cd fl principal c)) cs)
+                  (flat_map (fun c => expected_rows cd (c_path c) (spec_collection_answer cd fl principal c) (find_req fl)) cs)
+                  (* the rows of the home set itself come first and are not the subject here *)
+                  (option_map (filter (fun r => negb (String.eqb (row_href r) (href_enc cd home))
+                                                || existsb (fun c => String.eqb (c_path c) home) cs)) obs_table);
      applies := forallb coll_codec_ok cs && path_ok home && path_ok principal; finding := false |}.
 
 (** ** PROPFIND Depth 1 on a collection (listing), any requested names *)
@@ -197,7 +248,7 @@ Definition check_propfind (fl : flavor) (principal : string) (req : list xname) 
 (** ** GET *)
 Definition check_get (fl : flavor) (reqpath : string) (out : outcome) (obs_client : cres obj_view) : verdict :=
   {| agree := cres_eqb obj_view_eqb (e2e_get cd hd fl reqpath out) obs_client;
-     spec := cres_eqb obj_view_eqb
+     spec := cres_eqb obj_view_spec_eqb
                (match out with
                 | Found o => COk {| v_path := reqpath; v_etag := o_etag o; v_sec := o_sec o;
                                     v_len := pos_or_zero (o_len o); v_data := o_data o |}
